@@ -141,6 +141,33 @@ def run(ctx):
             unread.append(f)
         ctx.ob('R18.1', 'Config.%s reaches tokio_postgres::Config::%s' % (f, setter), bool(hit), ctx.where(g),
                'the option is accepted and documented but never applied' if not hit else '', construct='config-field:' + f, sites=[ctx.where(g, x.term.line) for x in hit])
+    # a scalar option that is set is applied whatever its value (only an empty user / dbname counts as unset - R18.3): from the
+    # Some arm of the first test of the field no path reaches the function's end around the setter
+    cadt = {f_['name']: f_ for f_ in adt['variants'][0]['fields']}
+    for f in fields:
+        if f in EXCLUDED or f in ('user', 'dbname') or f in GROUP or f in GROUP.values():
+            continue
+        if 'std::vec::Vec' in cadt[f]['ty']:
+            continue
+        setter = GROUP.get(f, f)
+        hit = [blk for blk, fl, looped, ordered in sites.get(setter, []) if f in fl and blk.idx < len(g.blocks) and g.blocks[blk.idx] is blk]
+        if not hit:
+            continue
+        tests = [x for x in g.blocks if x.term.kind == 'switch' and not x.cleanup and x.term.j.get('adt') == 'std::option::Option' and 'on' in x.term.j and
+                 any(s_[0] == 'field' and s_[1] == '%s.%s' % (CFG, f) for s_ in sources(an, Operand({'c': x.term.j['on']}))) and
+                 not any(s_[0] == 'agg' for s_ in sources(an, Operand({'c': x.term.j['on']})))]
+        tests = [x for x in tests if all(an.dominates(x.idx, y.idx) for y in tests)]
+        if len(tests) != 1:
+            continue
+        arms_ = dict(tests[0].term.switch_arms())
+        if 'Some' not in arms_:
+            continue
+        esc = an.reach([arms_['Some']], ('normal',), avoid=[h.idx for h in hit] + ([arms_['None']] if 'None' in arms_ else []))
+        around = [e for e in an.exits()['return'] if e in esc and not any(bb == e and cls in ('err', 'residual') for bb, cls, det in an.ret_assignments())]
+        okv = not around
+        ctx.ob('R18.1', 'Config.%s, when set, is applied whatever its value' % f, okv, ctx.where(g, tests[0].term.line),
+               'a path from `%s` being Some reaches the end of get_pg_config without %s(): a value that is set (an empty string, say) is dropped' % (f, setter) if not okv else '',
+               construct='config-field-conditional:' + f)
     if unread:
         ctx.ob('R18.1', 'no Config field is ignored', False, ctx.where(g), 'never applied: %s' % unread, construct='config-field-unread:' + '|'.join(unread))
     fs = [blk for blk in g.blocks if blk.term.kind == 'call' and not blk.cleanup and any(n.endswith('FromStr>::from_str') or n.endswith('FromStr::from_str') for n in blk.term.callee_names())]
@@ -206,6 +233,28 @@ def run(ctx):
                         ie = [x for x in cb.blocks if x.term.kind == 'call' and any(n.endswith('::is_empty') for n in x.term.callee_names())]
                         nots = any(st.kind == 'assign' and st.rv.kind == 'un' and st.rv.binop == 'Not' for x in cb.blocks for st in x.stmts)
                         okf = bool(ie) and nots
+            if not okf:
+                # on the normal form (`filter` written out, its closure inlined): the setter is reached only from the arm on which the
+                # value is NOT empty
+                for sw_ in g.blocks:
+                    if sw_.term.kind != 'switch' or sw_.term.j.get('dty') != 'bool' or sw_.cleanup or sw_.term.discr.kind == 'const':
+                        continue
+                    ds_ = sources(an, sw_.term.discr, deep=True)
+                    if not (any(s_[0] == 'call' and s_[1].endswith('::is_empty') for s_ in ds_) and any(s_[0] == 'field' and s_[1] == '%s.%s' % (CFG, f) for s_ in ds_)):
+                        continue
+                    neg_ = False
+                    l_ = sw_.term.discr.place.local if not sw_.term.discr.place.proj else None
+                    for _ in range(6):
+                        d_ = an.single_def(l_) if l_ is not None else None
+                        if d_ and d_[0] == 'stmt' and d_[3].rv.kind == 'un' and d_[3].rv.binop == 'Not':
+                            neg_ = not neg_; l_ = d_[3].rv.ops[0].place.local if d_[3].rv.ops[0].kind != 'const' else None; continue
+                        if d_ and d_[0] == 'stmt' and d_[3].rv.kind == 'use' and d_[3].rv.ops[0].kind != 'const' and not d_[3].rv.ops[0].place.proj:
+                            l_ = d_[3].rv.ops[0].place.local; continue
+                        break
+                    arms_ = dict(sw_.term.switch_arms())
+                    empty_arm = arms_['false' if neg_ else 'true']; full_arm = arms_['true' if neg_ else 'false']
+                    if blk.idx not in an.reach([empty_arm], ('normal',), avoid=[full_arm]) and blk.idx in an.reach([full_arm], ('normal',), avoid=[empty_arm]):
+                        okf = True
             ctx.ob('R18.3', 'an empty %s counts as unset' % f, okf, ctx.where(g, blk.term.line), '', construct='nonempty:' + f)
     errs = {}
     for blk in g.blocks:
